@@ -168,9 +168,14 @@ def formats (r : Reg) : List (Option Str) := r.map (·.2.fmt)
 
 /-! ### frame.py -/
 
-/-- `add_column(df, name, values, unit, **kwargs)` after `df[name] = values` succeeded; `f` is the frame
-    after that assignment.  No consultation takes place; the remembered dtypes are forgotten first. -/
-def addColumn (i0 : Info) (f : Frame) (name : Str) (unit dunit fmt : Option Str) : Info × Option Err :=
+/-- `df[name]` for a label that occurs more than once is a pandas selection of several columns: it goes
+    through `__finalize__`, whose validation of the *selected* frame raises InvalidNamingError before the
+    table's own info is consulted -/
+def dupLabel (f : Frame) (name : Str) : Bool := (f.names.filter (fun n => n = name)).length > 1
+
+/-- `add_column` for a label that is unique in the frame after the assignment (or with an explicit unit,
+    where `df[name].dtype` is never evaluated) -/
+def addColumnCore (i0 : Info) (f : Frame) (name : Str) (unit dunit fmt : Option Str) : Info × Option Err :=
   let i : Info := { i0 with last := none }
   match f.cols.find? (fun c => c.name = name) with
   | none => (i, some .keyError)
@@ -186,6 +191,13 @@ def addColumn (i0 : Info) (f : Frame) (name : Str) (unit dunit fmt : Option Str)
       match get i.reg name with
       | none => ({ i with reg := set i.reg name nc }, none)
       | some col => ({ i with reg := set i.reg name (updateFrom col nc) }, none)
+
+/-- `add_column(df, name, values, unit, **kwargs)` after `df[name] = values` succeeded; `f` is the frame
+    after that assignment.  No consultation takes place; the remembered dtypes are forgotten first.  Without a
+    unit, `df[name].dtype` is evaluated: for a duplicated label that selection raises InvalidNamingError. -/
+def addColumn (i0 : Info) (f : Frame) (name : Str) (unit dunit fmt : Option Str) : Info × Option Err :=
+  if unit.isNone && dupLabel f name then ({ i0 with last := none }, some .invalidNaming)
+  else addColumnCore i0 f name unit dunit fmt
 
 /-- `columns[col].unit = unit` for each pair, stopping at the first missing key -/
 def assignUnits : Reg → List (Str × Str) → Reg × Option Err
@@ -206,11 +218,6 @@ def setUnits (i : Info) (f : Frame) (m : List (Str × Str)) : Info × Option Err
 /-- `set_all_units(df, units)` -/
 def setAllUnits (i : Info) (f : Frame) (us : List Str) : Info × Option Err :=
   setUnits i f (f.names.zip us)
-
-/-- `df[name]` for a label that occurs more than once is a pandas selection of several columns: it goes
-    through `__finalize__`, whose validation of the *selected* frame raises InvalidNamingError before the
-    table's own info is consulted -/
-def dupLabel (f : Frame) (name : Str) : Bool := (f.names.filter (fun n => n = name)).length > 1
 
 /-- `Table[name].unit = u`: `df[name]`, consultation, `columns[name]`, assignment -/
 def setColUnit (i : Info) (f : Frame) (name u : Str) : Info × Option Err :=
